@@ -103,7 +103,7 @@ def gen(seed, tier, want=None):
             # generation's slot and stays inside; D1 leaves; now the remover must finish on its own (sticky seen flags)
             for a in range(5, 9):
                 for b in range(7, 14):
-                    scen.append(Scenario(name, disp, setup, acts, [0] * a + [1] * b + [2] * 7 + [0] * 8 + [1] * 60 + [2] * 20))
+                    scen.append(Scenario(name, disp, setup, acts, sticky_schedule(a, b)))
         if n == 3:
             # two families of block schedules: P^i Q* P^j R* P*  (P paused twice, Q and R run to completion in between)
             # and P^i Q^j P* R* Q*  (P and Q each paused once), for all role assignments
@@ -380,9 +380,19 @@ def mon_c02(s, r):
     return viol
 
 
+def sticky_schedule(a, b):
+    return [0] * a + [1] * b + [2] * 7 + [0] * 8 + [1] * 60 + [2] * 20
+
+
+STICKY_SCHEDULES = {tuple(sticky_schedule(a, b)) for a in range(5, 9) for b in range(7, 14)}
+
+
 def mon_c18(s, r):
     viol = []
-    if s.name == 'sticky' and len(s.sched) > 40 and s.sched[-21] == 1:
+    # (only on the directed schedules of that shape: in general a remover rightly waits for a delivery that entered the
+    # old generation's slot after the publication, so "60 steps after the last old-snapshot holder left" is no bound
+    # for arbitrary schedules - a random schedule of the thorough tier once matched a looser guard here: false alarm, corrected)
+    if s.name == 'sticky' and tuple(s.sched) in STICKY_SCHEDULES:
         # the remover (A1) got 60 steps in a row after D1 (A0) had left while D2 (A2) stays inside the new slot
         tr = r['trace']
         d1_last = max([i for i, l in enumerate(tr) if l[0] == 0] or [-1])
@@ -390,7 +400,9 @@ def mon_c18(s, r):
         d2_after = [i for i, l in enumerate(tr) if l[0] == 2 and i > d1_last]
         d2_inside = any(l[0] == 2 and l[1] == 0 and l[2] == 1 for l in tr[:d1_last + 1]) and not any(l[0] == 2 and l[1] == 4 for l in tr[:d1_last + 1])
         d1_held_old = any(l[0] == 0 and l[1] == 0 and l[2] == 1 and l[4] == 0 for l in tr) and any(l[0] == 1 and l[1] == 2 and l[2] == 1 for l in tr[:d1_last])
-        if d2_inside and d1_held_old and ret and d2_after and ret[0] > d2_after[0]:
+        slot = lambda act: next((l[2] for l in tr if l[0] == act and l[2] in (3, 4)), None)
+        other_slot = slot(0) is not None and slot(2) is not None and slot(0) != slot(2)    # D2 really came in through the other generation's slot
+        if d2_inside and d1_held_old and other_slot and ret and d2_after and ret[0] > d2_after[0]:
             viol.append(('spins-on-new-generation-reader', ret[0], 'the remover A1 did not finish within 60 of its own steps after the only delivery that held the OLD '
                          'snapshot had returned; it kept spinning while a delivery that entered after the generation flip was inside (seen flags not sticky)'))
     if r.get('stuck'):
